@@ -10,6 +10,11 @@ package main
 // R accepts it and reports A's Info (height, app hash); then A and R execute the same further blocks: responses,
 // validator updates, app hashes, full state export and every app-DB getter are compared after every block; at the next
 // snapshot height the snapshot of R (a restored node) is byte-compared with A's.
+//
+// In most runs (always in the first history of a run) the fresh node R is polled while the state sync is still going
+// on, as the running node is: its API is started right after the Tendermint node, so /status, monitoring and health
+// checks reach Blockchain.GetEmission, Info and the app-DB getters before the snapshot is offered and between the chunks.
+// A read-only query must not change what the node is after the restore.
 
 import (
 	"bytes"
@@ -97,10 +102,53 @@ func dumpCompare(a, b *Node, what string) []string {
 	return out
 }
 
+// syncPoll: the read-only queries an API / monitoring client is served by a node that is still state-syncing:
+// the emission of /status, Info, and every lazily loaded app-DB record (height, start height, versions, validators,
+// price, block-time delta). pick selects a random subset and order (all of them when rng is nil).
+// Returns the number of queries answered and the panic text, if one of them panicked.
+func syncPoll(n *Node, rng *rand.Rand) (calls int, pan string) {
+	defer func() {
+		if r := recover(); r != nil {
+			pan = shortPanic(r)
+		}
+	}()
+	app := n.App
+	adb := app.VerifAppDB()
+	qs := []func(){
+		func() { _ = app.GetEmission().String() },
+		func() { _ = app.Info(abci.RequestInfo{}) },
+		func() { adb.Emission() },
+		func() { adb.GetLastHeight(); adb.GetLastBlockHash() },
+		func() { adb.GetStartHeight() },
+		func() { adb.GetVersions() },
+		func() { adb.GetVersionName(app.Height() + 1); adb.GetVersionHeight("v310") },
+		func() { app.UpdateVersions(); app.GetVersionHeight("v330") },
+		func() { adb.GetValidators() },
+		func() { adb.GetPrice() },
+		func() { adb.GetLastBlockTimeDelta() },
+		func() { _ = app.Height(); _ = app.InitialHeight() },
+	}
+	order := make([]int, len(qs))
+	for i := range order {
+		order[i] = i
+	}
+	k := len(qs)
+	if rng != nil {
+		rng.Shuffle(len(order), func(i, j int) { order[i], order[j] = order[j], order[i] })
+		k = 1 + rng.Intn(len(qs))
+	}
+	for _, i := range order[:k] {
+		qs[i]()
+		calls++
+	}
+	return calls, ""
+}
+
 func SnapshotMode(profile string, baseSeed int64, n int, tier, keep string) ModeResult {
 	res := ModeResult{Notes: map[string]interface{}{}}
 	os.MkdirAll(keep, 0o755)
 	restored, snaps, restartsB, chunkBytes, blocksAfter := 0, 0, 0, 0, 0
+	polledRuns, polledBefore, polledBetween, pollCalls := 0, 0, 0, 0
 	for i := 0; i < n; i++ {
 		seed := baseSeed*1000 + int64(i)
 		rng := rand.New(rand.NewSource(seed ^ 0x5a9))
@@ -117,6 +165,22 @@ func SnapshotMode(profile string, baseSeed int64, n int, tier, keep string) Mode
 			o.TimeMode = 1
 		}
 		interval := 6 + rng.Intn(6)
+		// queries served while the state sync runs (own generator: the histories stay what they were):
+		// the first history of every run is polled with every query before the offer and between all chunks,
+		// three out of four of the others with a random subset at random points.
+		prng := rand.New(rand.NewSource(seed ^ 0x29c0ffee))
+		pollBefore, pollBetween, pollAll := true, true, true
+		if i > 0 {
+			pollAll = false
+			switch prng.Intn(4) {
+			case 0:
+				pollBefore, pollBetween = false, false
+			case 1:
+				pollBetween = false
+			case 2:
+				pollBefore = false
+			}
+		}
 		sink, _ := NewSink("", "")
 		h, err := NewHist(o, sink)
 		if err != nil {
@@ -215,18 +279,46 @@ func SnapshotMode(profile string, baseSeed int64, n int, tier, keep string) Mode
 			} else {
 				attachSnapshots(R, interval)
 				infA := A.App.Info(abci.RequestInfo{})
+				poll := func(when string) bool {
+					pr := prng
+					if pollAll {
+						pr = nil
+					}
+					c, pan := syncPoll(R, pr)
+					pollCalls += c
+					if pan != "" {
+						fail(fmt.Sprintf("state-syncing node panics on a read-only query %s: %s", when, pan))
+						return false
+					}
+					return true
+				}
+				if pollBefore || pollBetween {
+					polledRuns++
+				}
 				func() {
 					defer func() {
 						if x := recover(); x != nil {
 							fail("restore panics: " + shortPanic(x))
 						}
 					}()
+					if pollBefore {
+						polledBefore++
+						if !poll("before the snapshot is offered") {
+							return
+						}
+					}
 					or := R.App.OfferSnapshot(abci.RequestOfferSnapshot{Snapshot: sa, AppHash: infA.LastBlockAppHash})
 					if or.Result != abci.ResponseOfferSnapshot_ACCEPT {
 						fail(fmt.Sprintf("OfferSnapshot answered %v", or.Result))
 						return
 					}
 					for ci, c := range ca {
+						if pollBetween && (pollAll || prng.Intn(2) == 0) {
+							polledBetween++
+							if !poll(fmt.Sprintf("before chunk %d of %d is applied", ci, len(ca))) {
+								return
+							}
+						}
 						ar := R.App.ApplySnapshotChunk(abci.RequestApplySnapshotChunk{Index: uint32(ci), Chunk: c, Sender: "producer"})
 						if ar.Result != abci.ResponseApplySnapshotChunk_ACCEPT {
 							fail(fmt.Sprintf("ApplySnapshotChunk %d answered %v", ci, ar.Result))
@@ -301,5 +393,9 @@ func SnapshotMode(profile string, baseSeed int64, n int, tier, keep string) Mode
 	res.Notes["producer_restarts"] = restartsB
 	res.Notes["chunk_bytes"] = chunkBytes
 	res.Notes["blocks_after_restore"] = blocksAfter
+	res.Notes["restores_polled_during_sync"] = polledRuns
+	res.Notes["polls_before_offer"] = polledBefore
+	res.Notes["polls_between_chunks"] = polledBetween
+	res.Notes["sync_queries_answered"] = pollCalls
 	return res
 }
